@@ -20,14 +20,40 @@ def log(*a):
     print(*a, file=sys.stderr, flush=True)
 
 
-def build_harness():
-    """Rebuild the harness (path dependencies on /repo: always the current working tree)."""
-    t0 = time.time()
+BINDINGS = ['fn_swap', 'fn_reverse', 'fn_share', 'fn_maxspread', 'fn_slip']
+UNBOUND = []      # function-level event kinds this build of the harness cannot produce
+
+
+def _cargo_build(extra):
     env = dict(os.environ, CARGO_NET_OFFLINE='true')
-    p = subprocess.run(['cargo', 'build', '--offline', '--quiet'], cwd=HARNESS, env=env,
-                       stdout=subprocess.PIPE, stderr=subprocess.STDOUT, text=True)
+    return subprocess.run(['cargo', 'build', '--offline', '--quiet'] + extra, cwd=HARNESS, env=env,
+                          stdout=subprocess.PIPE, stderr=subprocess.STDOUT, text=True)
+
+
+def build_harness():
+    """Rebuild the harness (path dependencies on /repo: always the current working tree).
+
+    The harness calls five pure functions of the repository directly (one cargo feature each).  If the tree has
+    changed one of those signatures the full build fails; the harness is then built with the bindings that still
+    compile, the function-level events of the others are not produced, and the property is decided at system
+    level (and by the models) only - a changed signature must not turn every check into a tool error."""
+    t0 = time.time()
+    del UNBOUND[:]
+    p = _cargo_build([])
     if p.returncode != 0:
-        raise ToolError('harness build failed:\n' + p.stdout[-4000:])
+        first = p.stdout
+        if _cargo_build(['--no-default-features']).returncode != 0:
+            raise ToolError('harness build failed:\n' + first[-4000:])
+        good = []
+        for f in BINDINGS:
+            if _cargo_build(['--no-default-features', '--features', ','.join(good + [f])]).returncode == 0:
+                good.append(f)
+        p = _cargo_build(['--no-default-features'] + (['--features', ','.join(good)] if good else []))
+        if p.returncode != 0:
+            raise ToolError('harness build failed:\n' + p.stdout[-4000:])
+        out = subprocess.run([HBIN, 'bindings', '--out', '/dev/stdout'], stdout=subprocess.PIPE, text=True).stdout
+        UNBOUND.extend(l.split()[0] for l in out.splitlines() if l.endswith(' unbound'))
+        log('[build] signature changed: function-level bindings NOT available for: %s' % ', '.join(UNBOUND))
     log('[build] harness %.1fs' % (time.time() - t0))
 
 
